@@ -1066,6 +1066,30 @@ class CallMixin:
                 if not rest:
                     return self.const(True, site)
                 return rest[0] if len(rest) == 1 else self.mk("BoolOp", tuple(rest), "And", site)
+        if q == "numpy.select" and len(P) in (2, 3) and set(kw) <= {"default"} and P[0].op in ("List", "Tuple") and \
+                P[1].op in ("List", "Tuple") and len(P[0].args) == len(P[1].args) and \
+                not any(a.op == "Starred" for a in P[0].args + P[1].args):
+            # select([c1, c2, ..], [v1, v2, ..], d): the first condition that holds decides - nested where
+            dflt = P[2] if len(P) == 3 else kw.get("default", self.const(0, site))
+            out = self.res(dflt, st)
+            w = self.ext("numpy.where", site)
+            for c_, v_ in reversed(list(zip(P[0].args, P[1].args))):
+                out = self.call_ext(w, [c_, v_, out], {}, st, fr, site)
+            return out
+        if q == "numpy.einsum" and len(P) >= 2 and not kw and P[0].op == "Const" and isinstance(P[0].attr, str):
+            sub = P[0].attr.replace(" ", "")
+            none, full = self.const(None, site), self.mk("Slice", (self.const(None),) * 3, None, site)
+            if sub in ("ij,i->ij", "ij,j->ij") and len(P) == 3:
+                ix = self.mk("Tuple", (full, none) if sub == "ij,i->ij" else (none, full), None, site)
+                return self.binop("Mult", P[1], self.mk("Subscript", (P[2], ix), None, site), site)
+            if sub in ("i,ij->ij", "j,ij->ij") and len(P) == 3:
+                ix = self.mk("Tuple", (full, none) if sub == "i,ij->ij" else (none, full), None, site)
+                return self.binop("Mult", self.mk("Subscript", (P[1], ix), None, site), P[2], site)
+            if sub in ("i,i->i", "ij,ij->ij") and len(P) == 3:
+                return self.binop("Mult", P[1], P[2], site)
+            if sub in ("ij->i", "ij->j") and len(P) == 2:
+                return self.call_ext(self.ext("numpy.sum", site), [P[1]],
+                                     {"axis": self.const(1 if sub == "ij->i" else 0, site)}, st, fr, site)
         if q == "numpy.take" and len(P) == 2 and not kw and self._mask_of_index(P[1]) is not None:
             # take(x, flatnonzero(m)) is x[m] (both flatten alike)
             return self.subscript(pos[0], self._mask_of_index(P[1]), st, fr, site)
